@@ -6,6 +6,7 @@
 #   3. runs the given checks against /repo with the patch applied (then reverts)
 # and stores everything under /verif/seeded/<seed-id>/
 set -u
+export VERIF_EVIDENCE_DIR=/var/tmp/mbn-selftest-evidence   # never overwrite /verif/evidence from a broken tree
 WT=$1; ID=$2; shift 2
 OUT=/verif/seeded/$ID
 mkdir -p $OUT
